@@ -687,6 +687,20 @@ func c05Corpus(req, reply []byte, e *Env) (items [][]byte, classes []string) {
 	}
 	add("empty", []byte{})
 	add("noise-512", bytes.Repeat([]byte{0xa7}, 512))
+	add("ff-512", bytes.Repeat([]byte{0xff}, 512))
+	for _, n := range []int{254, 255, 256, 257, 300, 480} {
+		for _, flags := range []byte{0x40, 0xc0, 0x00} {
+			// a session header followed by nothing but the integrity pad value
+			hdr := []byte{6, 0, 0xff, 7, 6, flags, 0, 0, 0, 0, 1, 0, 0, 0, 0, 0}
+			if len(R) >= 16 {
+				copy(hdr[6:14], R[6:14])
+			}
+			add(fmt.Sprintf("ff-run-%d-%#x", n, flags), append(hdr, bytes.Repeat([]byte{0xff}, n)...))
+			h2 := append([]byte(nil), hdr...)
+			h2[14] = 16
+			add(fmt.Sprintf("ff-run-after-payload-%d-%#x", n, flags), append(append(h2, bytes.Repeat([]byte{0x11}, 16)...), bytes.Repeat([]byte{0xff}, n)...))
+		}
+	}
 	add("asf-pong", []byte{6, 0, 0xff, 6, 0, 0, 0x11, 0xbe, 0x40, 0, 0, 0x10})
 	add("v15-wrapper", refbmc.RMCP(append([]byte{0, 1, 0, 0, 0, 0, 0, 0, 0, 8}, refbmc.BuildRsp(0x81, 7, 0, 0x20, 1, 0, 0x38, 0, nil)...)))
 	add("v15-authcode-short", refbmc.RMCP([]byte{2, 1, 0, 0, 0, 0, 0, 0, 0, 1, 2, 3}))
